@@ -10,6 +10,11 @@
 #include <opm/input/eclipse/Schedule/Action/ActionResult.hpp>
 #include <opm/input/eclipse/Schedule/Action/ActionValue.hpp>
 #include <opm/input/eclipse/Schedule/Action/ActionX.hpp>
+#include <opm/input/eclipse/Schedule/Action/Actions.hpp>
+#include <opm/input/eclipse/Schedule/Action/Actdims.hpp>
+#include <opm/input/eclipse/Deck/Deck.hpp>
+#include <opm/input/eclipse/Deck/DeckKeyword.hpp>
+#include <opm/input/eclipse/Parser/Parser.hpp>
 #include <opm/input/eclipse/Schedule/Action/ASTNode.hpp>
 #include <opm/input/eclipse/Schedule/Action/State.hpp>
 #include <opm/input/eclipse/Schedule/SummaryState.hpp>
@@ -72,67 +77,99 @@ static std::string showNode(const Action::ASTNode& n) {
     return o + ")";
 }
 
-static std::string tokProto(const std::string& s) {
+static const char* typeName(Action::TokenType t) {
     using T = Action::TokenType;
-    auto t = Action::Parser::get_type(s);
     switch (t) {
-    case T::number: return "N:" + vh::hex(s) + ":" + vh::hexF64(std::strtod(s.c_str(), nullptr));
-    case T::ecl_expr: {
-        int code = 0;
-        try { code = static_cast<int>(Action::Parser::get_func(s)); } catch (...) { code = 0; }
-        return "E:" + vh::hex(s) + ":" + std::to_string(code);
-    }
-    case T::open_paren: return "L";
-    case T::close_paren: return "R";
-    case T::op_and: return "A";
-    case T::op_or: return "O";
-    case T::op_gt: return "C:gt";
-    case T::op_ge: return "C:ge";
-    case T::op_lt: return "C:lt";
-    case T::op_le: return "C:le";
-    case T::op_eq: return "C:eq";
-    case T::op_ne: return "C:ne";
+    case T::number: return "number";
+    case T::ecl_expr: return "expr";
+    case T::open_paren: return "lp";
+    case T::close_paren: return "rp";
+    case T::op_and: return "and";
+    case T::op_or: return "or";
+    case T::op_gt: return "cmp4";
+    case T::op_ge: return "cmp5";
+    case T::op_lt: return "cmp6";
+    case T::op_le: return "cmp7";
+    case T::op_eq: return "cmp8";
+    case T::op_ne: return "cmp9";
     default: return "?";
     }
+}
+
+// raw token: text, what strtod makes of it, FuncType code; the MODEL classifies the text itself
+static std::string tokProto(const std::string& s) {
+    int code = 0;
+    try { code = static_cast<int>(Action::Parser::get_func(s)); } catch (...) { code = 0; }
+    return "T:" + vh::hex(s) + ":" + vh::hexF64(std::strtod(s.c_str(), nullptr)) + ":" + std::to_string(code);
 }
 
 // ---------------------------------------------------------------------------------------------
 
 struct World {
     Strs wells;
-    std::map<std::string, double> keys;    // everything Context::get knows: FOPR, WOPR:P1, GOPR:G1, MNTH, JAN ...
-    std::map<std::string, Strs> wellsOf;   // func -> wells carrying it
+    std::map<std::string, double> keys;    // everything Context::get knows: FOPR, WOPR:P1, GOPR:G1, ROPR:1, MNTH, JAN ...
+    std::map<std::string, Strs> wellsOf;   // func -> wells carrying it (SummaryState::wells(func))
+    std::map<std::string, Strs> wlists;    // WLIST name -> wells
+    double udqUndef = 0.0;                 // SummaryState's value of an undefined UDQ
 };
 
+// the harness's own reading of "is a user defined quantity": second letter U after W G F C R B S A
+static bool ownIsUdq(const std::string& k) { return k.size() > 1 && k[1] == 'U' && std::string("WGFCRBSA").find(k[0]) != std::string::npos; }
+// reference look-up: a known value, else the undefined value for a UDQ
+static std::optional<double> refGet(const World& w, const std::string& key) {
+    auto it = w.keys.find(key);
+    if (it != w.keys.end()) return it->second;
+    if (ownIsUdq(key)) return w.udqUndef;
+    return std::nullopt;
+}
+
 static double gridVal(vh::Rng& rng) { return rng.range(0, 8) * 0.25; }
+
+static const Strs kWellFuncs = { "WOPR", "WWCT", "WUX" };
 
 struct Env {
     SummaryState st;
     WListManager wlm;
     std::unique_ptr<Action::Context> ctx;
     World w;
-    explicit Env(vh::Rng& rng) : st(TimeService::now(), 0.0) {
-        static const Strs wn = { "P1", "P2", "P3", "I1", "PA", "OP_1" };
-        int nw = rng.range(1, 6);
+    static double pickUndef(vh::Rng& rng) { return rng.pick(std::vector<double>{ 0.0, 0.0, 0.5, -99.0, 1.0e20 }); }
+    explicit Env(vh::Rng& rng) : Env(rng, pickUndef(rng)) {}
+    Env(vh::Rng& rng, double undef) : st(TimeService::now(), undef) {
+        w.udqUndef = undef;
+        static const Strs wn = { "P1", "P2", "P3", "I1", "PA", "OP_1", "OP1" };
+        int nw = rng.range(1, 7);
         for (int i = 0; i < nw; ++i) w.wells.push_back(wn[i]);
         for (size_t i = w.wells.size(); i > 1; --i) std::swap(w.wells[i - 1], w.wells[rng.below(i)]);
-        for (const char* f : { "FOPR", "FWCT" }) { double v = gridVal(rng); st.update(f, v); w.keys[f] = v; }
-        for (const char* f : { "WOPR", "WWCT" })
+        auto put = [&](const std::string& key) { double v = gridVal(rng); st.update(key, v); w.keys[key] = v; };
+        for (const char* f : { "FOPR", "FWCT", "FUX" }) put(f);                      // field vectors + a field UDQ
+        for (const char* k : { "ROPR:1", "ROPR:2", "BPR:1:2:3", "COPR:P1:1:2:3" }) put(k);   // numeric arguments
+        for (const auto& f : kWellFuncs)
             for (auto& well : w.wells) {
-                if (std::string(f) == "WWCT" && rng.coin(1, 4)) continue;      // some wells lack WWCT
+                if (f != "WOPR" && rng.coin(1, f == "WUX" ? 3 : 10)) continue;      // some wells lack WWCT / the well UDQ
                 double v = gridVal(rng);
                 st.update_well_var(well, f, v);
-                w.keys[std::string(f) + ":" + well] = v;
+                w.keys[f + ":" + well] = v;
             }
-        for (const char* g : { "G1", "G2" }) { double v = gridVal(rng); st.update_group_var(g, "GOPR", v); w.keys[std::string("GOPR:") + g] = v; }
+        for (const char* f : { "GOPR", "GUX" })
+            for (const char* g : { "G1", "G2" }) { double v = gridVal(rng); st.update_group_var(g, f, v); w.keys[std::string(f) + ":" + g] = v; }
+        // well lists
+        for (const char* ln : { "*L1", "*L2", "*M" }) {
+            if (rng.coin(1, 3)) continue;
+            Strs ws; for (auto& well : w.wells) if (rng.coin()) ws.push_back(well);
+            if (rng.coin(1, 12)) ws.push_back("NOSUCH");          // a listed well without summary values
+            wlm.newList(ln, ws);
+            w.wlists[ln] = wlm.getList(ln).wells();
+        }
         ctx = std::make_unique<Action::Context>(st, wlm);
         for (const auto& [m, idx] : TimeService::eclipseMonthIndices()) w.keys[m] = idx;
         double mnth = rng.range(1, 12), day = rng.range(1, 28), year = rng.range(2020, 2024);
         ctx->add("MNTH", mnth); ctx->add("DAY", day); ctx->add("YEAR", year);
         w.keys["MNTH"] = mnth; w.keys["DAY"] = day; w.keys["YEAR"] = year;
-        for (const char* f : { "WOPR", "WWCT" }) w.wellsOf[f] = st.wells(f);
+        for (const auto& f : kWellFuncs) w.wellsOf[f] = st.wells(f);
     }
 };
+
+static std::string stripQ(const std::string& s) { return (!s.empty() && s.front() == '\'') ? s.substr(1, s.size() - 2) : s; }
 
 // generator's own tree (used by the reference evaluator of the property mode)
 struct GNode {
@@ -149,30 +186,37 @@ struct Gen {
     vh::Rng& rng;
     const World& w;
     int ncmp = 0;
-    std::set<std::pair<std::string, std::string>> patterns;
+    bool dequoteRhsHead = false;     // what ActionX's dequote does to a quoted right-hand side name
     Gen(vh::Rng& r, const World& wo) : rng(r), w(wo) {}
 
     GNode cmp() {
         GNode n; n.k = GNode::CMP; ++ncmp;
-        switch (rng.below(9)) {
-        case 0: n.func = rng.coin() ? "FOPR" : "FWCT"; break;
-        case 1: n.func = "GOPR"; n.args = { rng.coin() ? "G1" : "G2" }; break;
-        case 2: n.func = rng.coin() ? "WOPR" : "WWCT"; n.args = { rng.pick(w.wells) }; break;
-        case 3: case 4: { n.func = rng.coin() ? "WOPR" : "WWCT"; std::string p = rng.pick(Strs{ "P*", "*", "'P*'", "I*", "X*", "*1", "\\*" }); n.args = { p }; break; }
+        static const Strs pats = { "P*", "*", "'P*'", "I*", "X*", "*1", "\\*", "?P*", "P?", "*P*", "\\*P*", "OP_*", "'\\*'", "*L1", "*L*", "'*L2'", "*M", "O*1", "\\P1" };
+        switch (rng.below(14)) {
+        case 0: n.func = rng.pick(Strs{ "FOPR", "FWCT", "FUX" }); break;
+        case 1: n.func = rng.coin() ? "GOPR" : "GUX"; n.args = { rng.pick(Strs{ "G1", "G2", "'G1'", "G1", "G2", "'G2'", "G1", "G2", "G*", "G3" }) }; break;
+        case 2: n.func = rng.pick(kWellFuncs); n.args = { rng.pick(w.wells) }; break;
+        case 3: case 4: case 9: { n.func = rng.pick(kWellFuncs); n.args = { rng.pick(pats) }; break; }
         case 5: n.func = "MNTH"; break;
         case 6: n.func = rng.coin() ? "DAY" : "YEAR"; break;
         case 7: n.func = "WOPR"; n.args = { "*" }; break;
+        case 10: n.func = "ROPR"; n.args = { rng.pick(Strs{ "1", "2", "1", "2", "1", "2", "1", "3" }) }; break;
+        case 11: n.func = "BPR"; n.args = { "1", "2", rng.coin(1, 10) ? "4" : "3" }; break;
+        case 12: n.func = "COPR"; n.args = { rng.coin(1, 10) ? "P*" : "P1", "1", "2", "3" }; break;
         default: n.func = "WWCT"; n.args = { "'" + rng.pick(w.wells) + "'" }; break;
         }
         n.op = rng.pick(kOps);
-        if (n.func == "MNTH") n.rhs = { rng.coin() ? rng.pick(Strs{ "JUN", "JAN", "DEC", "OKT" }) : rng.pick(Strs{ "6", "6.3", "5.5", "11.5", "1" }) };
-        else if (n.func == "YEAR") n.rhs = { rng.pick(Strs{ "2021", "2022.5", "2019" }) };
-        else if (n.func == "DAY") n.rhs = { rng.pick(Strs{ "1", "14", "28" }) };
-        else switch (rng.below(6)) {
-            case 0: n.rhs = { "FOPR" }; break;
-            case 1: n.rhs = { "WOPR", rng.pick(w.wells) }; break;
+        if (n.func == "MNTH") n.rhs = { rng.coin() ? rng.pick(Strs{ "JUN", "JAN", "DEC", "OKT", "JLY", "JUL", "'MAR'", "FEB", "NOV", "AUG", "SEP", "APR", "MAY", "OCT" }) : rng.pick(Strs{ "6", "6.3", "5.5", "11.5", "1", "6.5", "0.4", "12.49", "2.5", "4.5", "8.5", "10.5", "0.5", "3.7" }) };
+        else if (n.func == "YEAR") n.rhs = { rng.pick(Strs{ "2021", "2022.5", "2019", "2.022E3" }) };
+        else if (n.func == "DAY") n.rhs = { rng.pick(Strs{ "1", "14", "28", "14.5", "+7" }) };
+        else switch (rng.below(10)) {
+            case 0: n.rhs = { rng.coin() ? "FOPR" : "FUX" }; break;
+            case 1: n.rhs = { rng.coin() ? "WOPR" : "WUX", rng.pick(w.wells) }; break;
             case 2: if (rng.coin(1, 3)) n.rhs = { "WOPR", "P*" }; else n.rhs = { "FWCT" }; break;   // a list on the right: the code throws
-            default: n.rhs = { rng.pick(Strs{ "0", "0.5", "1", "1.25", "2", "0.75", "1e0", "-1" }) }; break;
+            case 3: n.rhs = { rng.coin() ? "GOPR" : "GUX", rng.coin() ? "G1" : "G2" }; break;
+            case 4: n.rhs = { "ROPR", rng.pick(Strs{ "1", "2" }) }; break;
+            case 5: n.rhs = { rng.pick(Strs{ "BPR", "COPR" }) }; if (n.rhs[0] == "BPR") { n.rhs.insert(n.rhs.end(), { "1", "2", "3" }); } else { n.rhs.insert(n.rhs.end(), { "P1", "1", "2", "3" }); } break;
+            default: n.rhs = { rng.pick(Strs{ "0", "0.5", "1", "1.25", "2", "0.75", "1e0", "-1", ".5", "1.", "0x1p-1", "+1.5E0", "5e-1" }) }; break;
         }
         return n;
     }
@@ -187,9 +231,8 @@ struct Gen {
     void render(const GNode& n, Strs& out) {
         if (n.k == GNode::CMP) {
             out.push_back(n.func); for (auto& a : n.args) out.push_back(a);
-            out.push_back(n.op); for (auto& a : n.rhs) out.push_back(a);
-            if (n.args.size() == 1 && n.args[0].find('*') != std::string::npos) patterns.insert({ n.func, n.args[0] });
-            if (n.rhs.size() == 2 && n.rhs[1].find('*') != std::string::npos) patterns.insert({ n.rhs[0], n.rhs[1] });
+            out.push_back(n.op);
+            for (size_t i = 0; i < n.rhs.size(); ++i) out.push_back(i == 0 && dequoteRhsHead ? stripQ(n.rhs[i]) : n.rhs[i]);
             return;
         }
         for (size_t i = 0; i < n.ch.size(); ++i) {
@@ -201,23 +244,43 @@ struct Gen {
     }
 };
 
-static std::string stripQ(const std::string& s) { return (!s.empty() && s.front() == '\'') ? s.substr(1, s.size() - 2) : s; }
 
+// the harness's OWN pattern matcher for the reference evaluator (documented meaning of * ? \c)
+static bool ownGlob(const char* p, const char* n) {
+    if (*p == 0) return *n == 0;
+    if (*p == '*') { for (const char* q = n;; ++q) { if (ownGlob(p + 1, q)) return true; if (*q == 0) return false; } }
+    if (*n == 0) return false;
+    if (*p == '?') return ownGlob(p + 1, n + 1);
+    if (*p == '\\') { return p[1] != 0 && p[1] == *n && ownGlob(p + 2, n + 1); }
+    return *p == *n && ownGlob(p + 1, n + 1);
+}
+
+// reference: the wells a well argument names.  "*NAME" = well list(s), a leading backslash protects
+// a pattern that starts with '*', otherwise the wells carrying the vector that match the pattern
 static Strs matchWells(const World& w, const std::string& func, const std::string& quoted) {
     std::string p = stripQ(quoted);
-    if (p.size() > 1 && p.front() == '*') return {};      // "*NAME" names a well list (WLIST); none is defined here
-    if (!p.empty() && p.front() == '\\') p = p.substr(1);
     Strs out;
+    if (p.size() > 1 && p.front() == '*') {
+        auto it = w.wlists.find(p);
+        if (it != w.wlists.end()) return it->second;
+        for (auto& kv : w.wlists)
+            if (ownGlob(p.c_str() + 1, kv.first.c_str() + 1))
+                for (auto& x : kv.second) if (std::find(out.begin(), out.end(), x) == out.end()) out.push_back(x);
+        return out;
+    }
+    if (!p.empty() && p.front() == '\\') p = p.substr(1);
     auto it = w.wellsOf.find(func);
     if (it == w.wellsOf.end()) return out;
-    for (auto& well : it->second) if (shmatch(p, well)) out.push_back(well);
+    for (auto& well : it->second) if (ownGlob(p.c_str(), well.c_str())) out.push_back(well);
     return out;
 }
 
-static std::string ctxProto(const World& w, const std::set<std::pair<std::string, std::string>>& pats) {
+static std::string ctxProto(const World& w) {
     std::string o = "WF=" + std::to_string(static_cast<int>(Action::FuncType::well)) + " MF=" + std::to_string(static_cast<int>(Action::FuncType::time_month));
+    o += " UD=" + vh::hexF64(w.udqUndef);
     for (auto& kv : w.keys) o += " K:" + vh::hex(kv.first) + "=" + vh::hexF64(kv.second);
-    for (auto& p : pats) o += " P:" + vh::hex(p.first) + ":" + vh::hex(stripQ(p.second)) + ":" + listHex(matchWells(w, p.first, p.second));
+    for (auto& kv : w.wellsOf) o += " W:" + vh::hex(kv.first) + ":" + listHex(kv.second);
+    for (auto& kv : w.wlists) o += " L:" + vh::hex(kv.first) + ":" + listHex(kv.second);      // std::map order
     return o;
 }
 
@@ -244,25 +307,33 @@ static bool holds(double a, const std::string& op0, double b) {
     return a != b;
 }
 
+static std::string joinColon(const Strs& v, size_t from) { std::string o; for (size_t i = from; i < v.size(); ++i) { if (i > from) o += ":"; o += stripQ(v[i]); } return o; }
+
 static RefRes refEval(const GNode& n, const World& w) {
     RefRes r;
     if (n.k == GNode::CMP) {
         double rhs = 0;
+        const std::string r0 = stripQ(n.rhs[0]);
         if (n.rhs.size() == 1) {
-            char* e = nullptr; double x = std::strtod(n.rhs[0].c_str(), &e);
+            char* e = nullptr; double x = std::strtod(r0.c_str(), &e);
             if (*e == 0) rhs = (n.func == "MNTH") ? std::round(x) : x;
-            else { auto it = w.keys.find(n.rhs[0]); if (it == w.keys.end()) { r.bad = true; return r; } rhs = it->second; }
+            else { auto v = refGet(w, r0); if (!v) { r.bad = true; return r; } rhs = *v; }
         } else {
-            if (n.rhs[1].find('*') != std::string::npos) { r.bad = true; return r; }
-            auto it = w.keys.find(n.rhs[0] + ":" + n.rhs[1]); if (it == w.keys.end()) { r.bad = true; return r; } rhs = it->second;
+            if (n.rhs.size() == 2 && n.rhs[1].find('*') != std::string::npos) { r.bad = true; return r; }
+            auto v = refGet(w, r0 + ":" + joinColon(n.rhs, 1)); if (!v) { r.bad = true; return r; } rhs = *v;
         }
-        if (n.args.empty()) { auto it = w.keys.find(n.func); if (it == w.keys.end()) { r.bad = true; return r; } r.ok = holds(it->second, n.op, rhs); return r; }
+        if (n.args.empty()) { auto v = refGet(w, n.func); if (!v) { r.bad = true; return r; } r.ok = holds(*v, n.op, rhs); return r; }
         std::string a = stripQ(n.args[0]);
         bool wellLevel = n.func[0] == 'W';
-        Strs ws = (a.find('*') != std::string::npos) ? matchWells(w, n.func, n.args[0]) : Strs{ a };
-        if (!wellLevel) { auto it = w.keys.find(n.func + ":" + a); if (it == w.keys.end()) { r.bad = true; return r; } r.ok = holds(it->second, n.op, rhs); return r; }
+        bool pattern = n.args.size() == 1 && a.find('*') != std::string::npos;
+        if (!wellLevel) {
+            if (pattern) { r.bad = true; return r; }                 // lists of groups etc. are not supported
+            auto v = refGet(w, n.func + ":" + joinColon(n.args, 0)); if (!v) { r.bad = true; return r; }
+            r.ok = holds(*v, n.op, rhs); return r;
+        }
+        Strs ws = pattern ? matchWells(w, n.func, n.args[0]) : Strs{ a };
         r.wells = std::set<std::string>{};
-        for (auto& well : ws) { auto it = w.keys.find(n.func + ":" + well); if (it == w.keys.end()) { r.bad = true; return r; } if (holds(it->second, n.op, rhs)) r.wells->insert(well); }
+        for (auto& well : ws) { auto v = refGet(w, n.func + ":" + well); if (!v) { r.bad = true; return r; } if (holds(*v, n.op, rhs)) r.wells->insert(well); }
         r.ok = !r.wells->empty();
         return r;
     }
@@ -298,6 +369,98 @@ static std::vector<std::time_t> realDrive(const RunCfg& c, const std::vector<std
     return runs;
 }
 
+
+// ---------------------------------------------------------------------------------------------
+// several actions over report steps: real Actions::add / Actions::pending / State::add_run
+
+struct SimEvent { char kind; std::string name; size_t maxRun = 0; long minWait = 0; long start = 0; long t = 0; Strs trueNames; };
+struct SimRun { std::string name; size_t id; long t; size_t maxRun; long minWait; long start; };
+
+static std::vector<SimEvent> genSim(vh::Rng& rng, int len) {
+    static const Strs names = { "A", "B", "ACT3" };
+    std::vector<SimEvent> evs;
+    long t = rng.range(0, 4);
+    for (int i = 0; i < len; ++i) {
+        SimEvent e;
+        if (i == 0 || rng.coin(1, 5)) {
+            e.kind = 'D'; e.name = rng.pick(names); e.maxRun = static_cast<size_t>(rng.range(0, 3));
+            e.minWait = rng.pick(std::vector<int>{ 0, 0, 1, 5, 10 }); e.start = rng.pick(std::vector<int>{ 0, 0, 3, 12 });
+        } else {
+            e.kind = 'S'; t += rng.pick(std::vector<int>{ 0, 1, 1, 2, 4, 5, 9, 10, 11 }); e.t = t;
+            for (auto& n : names) if (rng.coin(2, 3)) e.trueNames.push_back(n);
+        }
+        evs.push_back(e);
+    }
+    return evs;
+}
+
+static std::string simProto(const std::vector<SimEvent>& evs) {
+    std::string o = "action.sim";
+    for (auto& e : evs) {
+        if (e.kind == 'D') o += " D:" + vh::hex(e.name) + ":" + std::to_string(e.maxRun) + ":" + std::to_string(e.minWait) + ":" + std::to_string(e.start);
+        else o += " S:" + std::to_string(e.t) + ":" + listHex(e.trueNames);
+    }
+    return o;
+}
+
+// the simulator's loop (msim::post_step / flow's action handler): pending, evaluate, add_run
+static std::string realSim(const std::vector<SimEvent>& evs, std::vector<SimRun>* runsOut = nullptr) {
+    Action::Actions actions;
+    Action::State state;
+    std::string log;
+    for (auto& e : evs) {
+        if (e.kind == 'D') { actions.add(Action::ActionX(e.name, e.maxRun, static_cast<double>(e.minWait), static_cast<std::time_t>(e.start))); continue; }
+        for (const auto* a : actions.pending(state, static_cast<std::time_t>(e.t))) {
+            if (std::find(e.trueNames.begin(), e.trueNames.end(), a->name()) == e.trueNames.end()) continue;
+            state.add_run(*a, static_cast<std::time_t>(e.t), Action::Result{ true });
+            log += (log.empty() ? "" : ",") + vh::hex(a->name()) + "." + std::to_string(a->id()) + "@" + std::to_string(e.t);
+            if (runsOut) runsOut->push_back({ a->name(), a->id(), e.t, a->max_run(), static_cast<long>(a->min_wait()), static_cast<long>(a->start_time()) });
+        }
+    }
+    if (log.empty()) log = "-";
+    log += " ;";
+    for (const auto& a : actions) {
+        size_t c = state.run_count(a);
+        log += " " + vh::hex(a.name()) + "." + std::to_string(a.id()) + "=" + std::to_string(c) + ":" + (c ? std::to_string(static_cast<long>(state.run_time(a))) : std::string("-"));
+    }
+    return log;
+}
+
+// ---------------------------------------------------------------------------------------------
+// the real entry point: ACTIONX keyword in a deck -> parseActionX -> ActionX::eval
+
+static std::string deckText(const Strs& toks) {
+    std::string d = "RUNSPEC\nACTDIMS\n  4 50 80 64 /\nSCHEDULE\nACTIONX\n  ACT 10 0 /\n ";
+    for (size_t i = 0; i < toks.size(); ++i) {
+        d += " " + toks[i];
+        auto t = Action::Parser::get_type(toks[i]);
+        if ((t == Action::TokenType::op_and || t == Action::TokenType::op_or) && i + 1 < toks.size()) d += " /\n ";
+    }
+    d += " /\n/\n";
+    return d;
+}
+
+// "noparse" | "err" | "ok <0|1> <wells>"
+static std::string deckEval(const Strs& toks, const Action::Context& ctx, Action::Result* out = nullptr) {
+    try {
+        const auto deck = Parser{}.parseString(deckText(toks));
+        const auto& kw = deck["ACTIONX"].back();
+        auto [action, errors] = Action::parseActionX(kw, Actdims(deck), 0);
+        if (!errors.empty()) return "noparse";
+        try { auto r = action.eval(ctx); if (out) *out = r; return showResult(r); }
+        catch (const std::exception&) { return "err"; }
+    } catch (const std::exception&) { return "noparse"; }
+}
+
+static std::string randomToken(vh::Rng& rng) {
+    static const Strs pieces = { "1", "0", "9", ".", "e", "E", "+", "-", "x", "X", "p", "P", "inf", "INF", "nan", "NaN", "inity", "infinity",
+        "(", ")", "a", "f", "F", "_", " ", "\t", "and", "AND", "Or", "or", ".gt.", ".GE.", ".ge", ">", "=", "!", "<", "0x", "0X1", "1e5", "1.5", "d", "D",
+        ".Ne.", ".EQ.", ".lt.", ".LE.", "W", "i", "n", "*", "'", "nan(", "a1)", "1.", ".5", "e+", "e-3", "p+2" };
+    std::string t; int n = rng.range(1, 4);
+    for (int i = 0; i < n; ++i) t += rng.pick(pieces);
+    return t;
+}
+
 int main(int argc, char** argv) {
     if (argc < 5) { std::cerr << "usage: action corr|prop <seed> <tier> <outdir>\n"; return 2; }
     const std::string mode = argv[1];
@@ -320,7 +483,7 @@ int main(int argc, char** argv) {
 
     if (mode == "corr") {
         vh::Sink sink(outdir);
-        int nworlds = thorough ? 150 : 40, per = thorough ? 60 : 40;
+        int nworlds = thorough ? 200 : 80, per = thorough ? 60 : 40;
         Strs alphabet = { "(", ")", "AND", "OR", ">", "<=", "1", "FOPR", "WOPR", "P*", "=", "and" };
         for (int wi = 0; wi < nworlds; ++wi) {
             Env env(rng);
@@ -336,7 +499,6 @@ int main(int argc, char** argv) {
                     case 1: toks.insert(toks.begin() + static_cast<long>(p), rng.pick(alphabet)); break;
                     default: toks[p] = rng.pick(alphabet); break;
                     }
-                    for (size_t i = 0; i + 1 < toks.size(); ++i) if (toks[i + 1].find('*') != std::string::npos) g.patterns.insert({ toks[i], toks[i + 1] });
                 }
                 std::string tp; for (auto& t : toks) tp += " " + tokProto(t);
                 std::string pans, eans;
@@ -350,9 +512,16 @@ int main(int argc, char** argv) {
                 sink.emit("action.parse" + tp, pans);
                 sink.count(mutate ? "parse.mutated" : "parse.grammar");
                 sink.count(pans == "err" ? "parse.answer.err" : "parse.answer.tree");
-                sink.emit("action.eval " + ctxProto(env.w, g.patterns) + " |" + tp, eans);
+                sink.emit("action.eval " + ctxProto(env.w) + " |" + tp, eans);
                 sink.count("eval"); sink.count("eval.answer." + eans.substr(0, eans.find(' ')));
                 if (eans.size() > 5 && eans.substr(0, 4) == "ok 1" && eans.substr(5) != "-") sink.count("eval.true_with_wells");
+                if (!mutate && k % 4 == 0) {
+                    // the same condition through the deck: ACTIONX keyword -> parseActionX (dequote) -> eval
+                    std::string dp; for (auto& t : toks) { std::string u = stripQ(t); int code = 0; try { code = static_cast<int>(Action::Parser::get_func(u)); } catch (...) {} dp += " T:" + vh::hex(t) + ":" + vh::hexF64(std::strtod(u.c_str(), nullptr)) + ":" + std::to_string(code); }
+                    std::string dans = deckEval(toks, *env.ctx);
+                    sink.emit("action.deckeval " + ctxProto(env.w) + " |" + dp, dans);
+                    sink.count("deckeval"); sink.count("deckeval.answer." + dans.substr(0, dans.find(' ')));
+                }
             }
         }
         // ready / add_run: every outcome sequence up to length 8 (quick: 6) for each limit configuration
@@ -367,6 +536,29 @@ int main(int argc, char** argv) {
             sink.emit(op, ans + " " + std::to_string(count));
             sink.count("run");
         });
+        // Parser::get_type on token strings built to hit the strtod corner cases
+        for (int i = 0; i < (thorough ? 20000 : 4000); ++i) {
+            std::string t = randomToken(rng);
+            std::string ans = typeName(Action::Parser::get_type(t));
+            sink.emit("action.classify " + vh::hex(t), ans);
+            sink.count("classify"); sink.count(std::string("classify.") + (ans.substr(0, 3) == "cmp" ? "cmp" : ans));
+        }
+        // fnmatch (shmatch) on patterns without bracket expressions
+        for (int i = 0; i < (thorough ? 20000 : 4000); ++i) {
+            static const Strs pa = { "P", "O", "1", "_", "*", "?", "\\", "*", "P" }, na = { "P", "O", "1", "_", "*", "?", "P", "1" };
+            std::string pt, nm; int lp = rng.range(0, 5), ln = rng.range(0, 5);
+            for (int k = 0; k < lp; ++k) pt += rng.pick(pa);
+            for (int k = 0; k < ln; ++k) nm += rng.pick(na);
+            bool m = shmatch(pt, nm);
+            sink.emit("action.glob " + vh::hex(pt) + " " + vh::hex(nm), m ? "1" : "0");
+            sink.count("glob"); sink.count(m ? "glob.match" : "glob.nomatch");
+        }
+        // several actions, redefinitions, report steps
+        for (int i = 0; i < (thorough ? 6000 : 1500); ++i) {
+            auto evs = genSim(rng, rng.range(2, thorough ? 24 : 14));
+            sink.emit(simProto(evs), realSim(evs));
+            sink.count("sim");
+        }
         sink.writeStats(outdir + "/stats.json");
         return 0;
     }
@@ -374,7 +566,7 @@ int main(int argc, char** argv) {
     if (mode == "prop") {
         vh::PropLog log(outdir + "/prop.txt");
         std::map<std::string, long> stats;
-        int nworlds = thorough ? 300 : 60, per = thorough ? 80 : 50;
+        int nworlds = thorough ? 400 : 120, per = thorough ? 80 : 50;
         for (int wi = 0; wi < nworlds; ++wi) {
             Env env(rng);
             for (int k = 0; k < per; ++k) {
@@ -383,23 +575,98 @@ int main(int argc, char** argv) {
                 Strs toks; g.render(root, toks);
                 RefRes ref = refEval(root, env.w);
                 if (ref.bad) { ++stats["ref_out_of_domain"]; continue; }
-                try {
-                    Action::AST ast(toks);
-                    auto res = ast.eval(*env.ctx);
+                std::set<std::string> want = ref.wells ? *ref.wells : std::set<std::string>{};
+                if (!ref.ok) want.clear();
+                auto judge = [&](const std::string& path, const Strs& tk, const Action::Result& res) {
                     std::set<std::string> got;
                     for (const auto& x : res.matches().wells()) got.insert(x);
-                    std::set<std::string> want = ref.wells ? *ref.wells : std::set<std::string>{};
-                    if (!ref.ok) want.clear();
-                    if (res.conditionSatisfied() != ref.ok) log.fail("cond-truth", "cond=" + joinStrs(toks) + " impl=" + std::to_string(res.conditionSatisfied()) + " ref=" + std::to_string(ref.ok));
-                    else if (got != want) log.fail("cond-wells", "cond=" + joinStrs(toks) + " impl=" + listHex(Strs(got.begin(), got.end())) + " ref=" + listHex(Strs(want.begin(), want.end())));
-                    else { log.ok(); ++stats[ref.ok ? "cond.true" : "cond.false"]; if (!want.empty()) ++stats["cond.with_wells"]; }
-                    // the reported range is sorted and duplicate free
+                    if (res.conditionSatisfied() != ref.ok) log.fail("cond-truth", path + " cond=" + joinStrs(tk) + " impl=" + std::to_string(res.conditionSatisfied()) + " ref=" + std::to_string(ref.ok));
+                    else if (got != want) log.fail("cond-wells", path + " cond=" + joinStrs(tk) + " impl=" + listHex(Strs(got.begin(), got.end())) + " ref=" + listHex(Strs(want.begin(), want.end())));
+                    else { log.ok(); ++stats[path + (ref.ok ? ".true" : ".false")]; if (!want.empty()) ++stats[path + ".with_wells"]; }
+                    // the reported range is sorted and duplicate free; hasWell agrees with it
                     Strs seq; for (const auto& x : res.matches().wells()) seq.push_back(x);
-                    if (!std::is_sorted(seq.begin(), seq.end()) || std::adjacent_find(seq.begin(), seq.end()) != seq.end()) log.fail("wells-sorted", "cond=" + joinStrs(toks));
-                } catch (const std::exception& e) {
-                    log.fail("cond-exception", "cond=" + joinStrs(toks) + " what=" + std::string(e.what()).substr(0, 60));
+                    if (!std::is_sorted(seq.begin(), seq.end()) || std::adjacent_find(seq.begin(), seq.end()) != seq.end()) log.fail("wells-sorted", path + " cond=" + joinStrs(tk));
+                    for (auto& wn : env.w.wells) if (res.matches().hasWell(wn) != (got.count(wn) > 0)) log.fail("has-well", path + " cond=" + joinStrs(tk) + " well=" + wn);
+                };
+                // (a) the token list as ActionX hands it to the AST (a quoted right-hand side name dequoted)
+                {
+                    Gen g2(rng, env.w); g2.dequoteRhsHead = true;
+                    Strs tk; g2.render(root, tk);
+                    try { Action::AST ast(tk); judge("ast", tk, ast.eval(*env.ctx)); }
+                    catch (const std::exception& e) { log.fail("cond-exception", "ast cond=" + joinStrs(tk) + " what=" + std::string(e.what()).substr(0, 60)); }
+                }
+                // (b) the real entry point: ACTIONX keyword of a deck -> parseActionX -> ActionX::eval
+                if (k % 3 == 0) {
+                    Action::Result res{ false };
+                    std::string a = deckEval(toks, *env.ctx, &res);
+                    if (a == "noparse" || a == "err") log.fail("cond-exception", "deck " + a + " cond=" + joinStrs(toks));
+                    else judge("deck", toks, res);
                 }
             }
+        }
+        // month comparisons: a numeric right-hand side counts as its NEAREST integer (halves away from zero)
+        for (int m = 1; m <= 12; ++m) {
+            SummaryState st(TimeService::now(), 0.0); WListManager wl; Action::Context cx(st, wl);
+            cx.add("MNTH", static_cast<double>(m));
+            for (double fr : { -0.5, -0.49, -0.3, 0.0, 0.3, 0.49, 0.5 }) {
+                char buf[32]; std::snprintf(buf, sizeof buf, "%.2f", m + fr);
+                const double nearest = std::floor(m + fr + 0.5);
+                for (const char* op : { "=", ">=", "<", "!=" }) {
+                    bool want = holds(static_cast<double>(m), op, nearest);
+                    bool got = Action::AST(Strs{ "MNTH", op, buf }).eval(cx).conditionSatisfied();
+                    if (got != want) log.fail("month-nearest", std::string("MNTH=") + std::to_string(m) + " cond=MNTH " + op + " " + buf);
+                    else { log.ok(); ++stats["month_nearest"]; }
+                }
+            }
+        }
+        // Parser::get_type: every operator spelling in every letter case, against the harness's own table
+        {
+            static const std::vector<std::pair<std::string, std::string>> table = {
+                { "and", "and" }, { "or", "or" }, { "(", "lp" }, { ")", "rp" }, { ">", "cmp4" }, { ".gt.", "cmp4" }, { ">=", "cmp5" }, { ".ge.", "cmp5" },
+                { "<", "cmp6" }, { ".lt.", "cmp6" }, { "<=", "cmp7" }, { ".le.", "cmp7" }, { "=", "cmp8" }, { ".eq.", "cmp8" }, { "!=", "cmp9" }, { ".ne.", "cmp9" } };
+            for (auto& [sp, want] : table) for (unsigned mask = 0; mask < (1u << sp.size()); ++mask) {
+                std::string t = sp; for (size_t i = 0; i < t.size(); ++i) if ((mask >> i) & 1u) t[i] = static_cast<char>(std::toupper(static_cast<unsigned char>(t[i])));
+                if (typeName(Action::Parser::get_type(t)) != want) log.fail("token-class", t); else { log.ok(); ++stats["token_class"]; }
+            }
+            for (const char* t : { "WOPR", "P1", "JAN", "OP_1", "G1", "MNTH", "*", "P*", "'P*'", "\\*", "A1.5", "1.5A", "E5", "ANDY", "ORE", "1E", ".", "-", "+" })
+                if (std::string(typeName(Action::Parser::get_type(t))) != "expr") log.fail("token-class", t); else { log.ok(); ++stats["token_class"]; }
+            for (const char* t : { "1", "1.5", "-1", "+2", ".5", "1.", "1e5", "1E-3", "2.5E+2", "007" })
+                if (std::string(typeName(Action::Parser::get_type(t))) != "number") log.fail("token-class", t); else { log.ok(); ++stats["token_class"]; }
+        }
+        // several actions over report steps, with redefinitions: every (name, id) respects its own limits and nothing is withheld
+        for (int rep = 0; rep < (thorough ? 8000 : 2000); ++rep) {
+            auto evs = genSim(rng, rng.range(2, thorough ? 24 : 14));
+            std::vector<SimRun> runs;
+            realSim(evs, &runs);
+            bool okk = true; std::string why;
+            std::map<std::pair<std::string, size_t>, std::vector<SimRun>> by;
+            for (auto& r : runs) by[{ r.name, r.id }].push_back(r);
+            for (auto& [key, rs] : by) {
+                if (rs.size() > rs[0].maxRun) { okk = false; why = "more than max_run"; }
+                for (size_t i = 0; i < rs.size(); ++i) {
+                    if (rs[i].t < rs[i].start) { okk = false; why = "before start"; }
+                    if (i && rs[i].minWait > 0 && rs[i].t - rs[i - 1].t < rs[i].minWait) { okk = false; why = "sooner than min_wait"; }
+                }
+            }
+            // reference replay of the documented rule: definitions in order, a redefinition is a new action
+            struct RefAct { std::string name; size_t maxRun; long minWait, start; size_t count = 0; long last = 0; };
+            std::vector<RefAct> acts; std::vector<std::pair<std::string, long>> want, got;
+            for (auto& e : evs) {
+                if (e.kind == 'D') {
+                    RefAct a{ e.name, e.maxRun, e.minWait, e.start };
+                    auto it = std::find_if(acts.begin(), acts.end(), [&](const RefAct& x) { return x.name == e.name; });
+                    if (it == acts.end()) acts.push_back(a); else *it = a;
+                    continue;
+                }
+                for (auto& a : acts) {
+                    bool allowed = a.count < a.maxRun && e.t >= a.start && (a.count == 0 || a.minWait <= 0 || e.t - a.last >= a.minWait);
+                    if (allowed && std::find(e.trueNames.begin(), e.trueNames.end(), a.name) != e.trueNames.end()) { ++a.count; a.last = e.t; want.push_back({ a.name, e.t }); }
+                }
+            }
+            for (auto& r : runs) got.push_back({ r.name, r.t });
+            if (want != got) { okk = false; why = "runs differ from the documented rule"; }
+            if (okk) { log.ok(); ++stats["sim_histories"]; }
+            else log.fail("sim-run-limits", why + ": " + simProto(evs));
         }
         // precedence: a OR b AND c == a OR (b AND c);  (a OR b) AND c differs structurally
         {
